@@ -243,3 +243,23 @@ func Harness_SELF_mustfail_mul() {
 	x := vU32("x")
 	vAssert(x*3 != 7, "x*3 == 7 has a solution mod 2^32")
 }
+
+// Division of a symbolic length by a constant, used as a capacity and as a slice bound.
+//
+//verif:opt maxpaths=200 reach=made
+func Harness_SELF_divLen() {
+	b := vBytes("b", 16)
+	n := int(vU16("n"))
+	vAssume(n <= 12)
+	if n%8 != 0 {
+		return
+	}
+	c := n / 8
+	s := make([]uint64, 0, c)
+	for i := 0; i < c; i++ {
+		s = append(s, uint64(b[8*i]))
+	}
+	w := b[:c*8]
+	vAssert(len(s) == c && len(w) == n && (c == 0 || c == 1), "n/8 for n in {0, 8}")
+	vReach("made")
+}
